@@ -263,6 +263,14 @@ EXTRA = {
            'type set to different sub-indexes of pattern logs that share first entry, last entry and size.',
     'C12': 'Histories "across-types read of T / reads of strict subsets of T with other arguments / the first read again".',
     'C15': 'Boundary sizes: union / common / per-type epoch counts at 2^k-1 .. 2^k+2 (k = 7, 8; thorough also 15, 16).',
+    'C03': 'Fresh-interpreter sweeps in which an application first defines and uses its own enum / mask classes under the names of '
+           'all protocol enumerations (same and different sizes, modules, qualnames) before the protocol enumerations are asked.',
+    'C05': 'Results are caller-owned values: every returned header / payload / raw-bytes object is snapshotted at return, re-read '
+           'after every later call, and may not be handed out twice; chunk ends at, before and after every message end under '
+           'every return_bytes / return_offset setting; messages of 4096 / 65536 bytes +- 1.',
+    'C07': 'The Python decoder is given 60 s on the 16 MB cases and the question is otherwise repeated at small scale.',
+    'C14': 'Long runs of one framer object (70 000 .. 2^17 + 70 000 frames generated in the harness from a seed) reported around '
+           '2^8, 2^15, 2^16, 2^17, with and without Reset(), judged window by window by the Lean scan.',
     'C18': 'Inputs with messages of every registered class in every P1-time configuration, each extracted with an index request.',
 }
 for _k, _v in EXTRA.items():
